@@ -705,6 +705,79 @@ def typedVector (intMask : List Bool) (dt : DType) (typed : Bool) (x : Vec) : Ve
     (Only used in `Props/C17` to show what `typed_point_is_the_same_point` is about.) -/
 def jacAstypeVariant (dt : DType) (j : Mat) : Mat := j.map (castTo dt)
 
+/-! ### Several formulations alive in one process: the lazily computed input masks
+
+`FunctionFromDiscipline._input_mask` is computed at the FIRST evaluation of the function object
+(`get_x_mask_x_swap_order(input_names, all_input_names)` of the object's OWN formulation, i.e. on the design
+space of that formulation as it is after the formulation has removed / required its variables) and kept by the
+object (`self.__input_mask`) for all its later evaluations.  The function objects of several formulations (MDF,
+IDF, DisciplinaryOpt built from design spaces with the same names and sizes) may be alive together and be
+evaluated in any interleaving. -/
+
+/-- What a `FunctionFromDiscipline` object holds when it is built: the variable sizes and the design-space
+    names of its own formulation, the input names of its adapter, the adapter itself (input data -> outputs). -/
+structure FObj where
+  sizes : Sizes
+  names : List String
+  inputNames : List String
+  body : Data → Vec
+
+/-- The mask the object computes: the positions of its input names in ITS formulation's design vector. -/
+def FObj.mask (f : FObj) : Option (List Nat) := getMask f.sizes f.inputNames f.names
+
+/-- The adapter applied to the components selected by a mask (`x_vect[mask]`, cut along the input names). -/
+def FObj.applyMask (f : FObj) (idx : List Nat) (x : Vec) : Option Vec :=
+  match takeIdx x idx with
+  | some xm => some (f.body (adapterInputData f.sizes f.inputNames xm))
+  | none => none
+
+/-- The value of the function object used alone, without any memory (`gEval`). -/
+def FObj.pure (f : FObj) (x : Vec) : Option Vec :=
+  match f.mask with
+  | some idx => f.applyMask idx x
+  | none => none
+
+/-- The masks kept so far, per function object (`none`: not computed yet). -/
+abbrev MaskMemo := Nat → Option (List Nat)
+
+/-- One evaluation of function object `i` in a process where the objects `objs` are alive: the mask is computed
+    if the object does not hold one yet (a `ValueError` leaves the object without mask), kept by THAT object. -/
+def lazyCall (objs : Nat → FObj) (memo : MaskMemo) (i : Nat) (x : Vec) : MaskMemo × Option Vec :=
+  match memo i with
+  | some idx => (memo, (objs i).applyMask idx x)
+  | none =>
+    match (objs i).mask with
+    | some idx => (fun k => if k = i then some idx else memo k, (objs i).applyMask idx x)
+    | none => (memo, none)
+
+/-- A history of evaluations `(function object, design vector)` in one process: the values in call order. -/
+def lazyRun (objs : Nat → FObj) : MaskMemo → List (Nat × Vec) → List (Option Vec)
+  | _, [] => []
+  | memo, (i, x) :: rest => (lazyCall objs memo i x).2 :: lazyRun objs (lazyCall objs memo i x).1 rest
+
+/-- The masks memoized in ONE table shared by all the function objects, keyed by what "seems" to determine a
+    mask: the input names and the variable sizes.  (Only used in `Props/C17` to show what
+    `formulations_alive_together_do_not_interfere` excludes: the key does not see the design-space names of
+    the object's own formulation.) -/
+def sharedCall (objs : Nat → FObj) (table : List ((List String × Sizes) × List Nat)) (i : Nat) (x : Vec) :
+    List ((List String × Sizes) × List Nat) × Option Vec :=
+  let key := ((objs i).inputNames, (objs i).sizes)
+  match table.find? (fun p => p.1 == key) with
+  | some p => (table, (objs i).applyMask p.2 x)
+  | none =>
+    match (objs i).mask with
+    | some idx => ((key, idx) :: table, (objs i).applyMask idx x)
+    | none => (table, none)
+
+def sharedRun (objs : Nat → FObj) : List ((List String × Sizes) × List Nat) → List (Nat × Vec) → List (Option Vec)
+  | _, [] => []
+  | t, (i, x) :: rest => (sharedCall objs t i x).2 :: sharedRun objs (sharedCall objs t i x).1 rest
+
+/-- The function object of `gEval`: design space `names`, inputs `names.filter hasInput`, outputs `outs`. -/
+def FObj.ofDisc (sizes : Sizes) (names : List String) (hasInput : String → Bool) (run : Data → String → Vec)
+    (outs : List String) : FObj :=
+  ⟨sizes, names, names.filter hasInput, fun data => outs.flatMap (run data)⟩
+
 /-! ### `OptimizationProblem.add_constraint(value, positive)`: `c - a` or `a - c` -/
 
 def formatValue (a : Rat) (positive : Bool) (v : Vec) : Vec :=
